@@ -99,3 +99,54 @@ def run_panic(ctx, entries, floor_entries, floor_defs, rule="PANIC"):
     # recursion
     sccs = P.local_sccs(prog, reach)
     return sites, reach, parent, defs, sccs, undischarged
+
+
+# loops whose termination argument was confirmed by reading and is none of the structural classes of pv.loops:
+# function -> [(witness: a call that must still run on every iteration, reason)]; each entry excuses one loop
+LOOP_TABLE = {
+    "avfx::Avfx::from_existing": [(r"binrw::BinRead::read<avfx::AvfxBlock[,>]", "block loop: every iteration reads an 8-byte block header and then seeks forward by the block's u32 size minus what was read; the position advances by 8 + size >= 8 per iteration (release arithmetic), debug builds stop at the subtraction (listed PANIC site)")],
+    "patch::ZiPatch::apply": [(r"binrw::BinRead::read<patch::PatchChunk[,>]", "chunk loop: every iteration reads one PatchChunk (at least size + magic + crc = 12 bytes) from the patch file and returns on a read error; the only repositioning of the patch cursor is the AddFile arm's -4 / +4 pair around its block reads; the other seeks act on the target files")],
+}
+
+
+def run_loops(ctx, defs, floor):
+    """LOOPS: every natural loop of the reachable local code carries a termination argument (pv.loops).  Functions are
+    analysed with their non-anchor helpers and directly called closures inlined (a stepped index used inside a closure
+    counts for the loop that calls it); helpers that are inlined everywhere are not analysed a second time."""
+    import re as _re
+
+    from .. import loops as L
+
+    prog = ctx.prog
+    n = 0
+    kinds = defaultdict(int)
+    prog.body(next(iter(defs))) if defs else None
+    inl = getattr(prog, "_inliner", None)
+    table_left = {fn: list(ents) for fn, ents in LOOP_TABLE.items()}
+    for d in sorted(defs):
+        if d not in prog.raw_bodies:
+            continue
+        if inl is not None and (inl.inlinable(d) or inl.closure_fully_inlined(d)):
+            continue
+        b = prog.body(d)
+        try:
+            cl = L.classify(b)
+        except Exception as e:  # noqa: BLE001
+            ctx.fail_closed("LOOPS", f"{d}: loop classification failed: {e}")
+            continue
+        for i, lp in enumerate(cl):
+            n += 1
+            if lp["kind"]:
+                kinds[lp["kind"]] += 1
+                ctx.ob("LOOPS", f"{d}|loop{i}", True, f"{d}: loop {i} terminates by {lp['kind']}: {lp['detail']}", b.file, b.line, trivial=(lp["kind"] == "ITER"))
+                continue
+            ent = next((e_ for e_ in table_left.get(d, []) if any(_re.search(e_[0], c_) for c_ in lp["dom_calls"])), None)
+            if ent:
+                table_left[d].remove(ent)
+                kinds["TABLE"] += 1
+                ctx.ob("LOOPS", f"{d}|loop{i}", True, f"{d}: loop {i} confirmed by reading: {ent[1]}", b.file, b.line)
+            else:
+                ctx.ob("LOOPS", f"{d}|unbounded", False, f"{d}: a loop of {lp['size']} blocks has no recognised termination argument (no finite iterator, no stepped counter tested on exit, no bounds-checked stepped index, no input-consuming read on every iteration){': ' + lp['detail'] if lp['detail'] else ''}", b.file, b.line)
+    ctx.extra["loops_by_argument"] = dict(kinds)
+    ctx.floor("LOOPS", "natural loops in reachable local code", n, floor)
+    return n
